@@ -277,6 +277,8 @@ HARNESSES = [
 
 from harness import density as _density  # noqa: E402
 HARNESSES = HARNESSES + _density.harnesses_c03()
+from harness import spal as _spal  # noqa: E402
+HARNESSES = HARNESSES + _spal.harnesses_c03()
 
 BOUNDS = dict(quick="scenarios of 2 chunks (sizes 2+1 and 1+2) with 1-3 interposed extra queries per step, w=3, symbolic budget, "
                     "symbolic utilities/features, symbolic seed; managers also from an arbitrary (symbolic) pre-state",
